@@ -417,3 +417,60 @@ Theorem normalize_float_exponent_padding_refuted :
 Proof.
   exists witness_number, 0%nat, 1%nat, Me. repeat split; try reflexivity. vm_compute. discriminate.
 Qed.
+
+(* ---- normal forms are fixed points ---- *)
+Lemma canon_frac_idem f : canon_frac (canon_frac f) = canon_frac f.
+Proof.
+  unfold canon_frac. destruct (rstrip0 f) as [|c r] eqn:E; [reflexivity|].
+  rewrite <- E, rstrip0_idem, E. reflexivity.
+Qed.
+
+Lemma all_digits_canon f : all_digits f = true -> all_digits (canon_frac f) = true.
+Proof.
+  intros H. unfold canon_frac. pose proof (all_digits_rstrip0 f H) as H'.
+  destruct (rstrip0 f); [reflexivity | exact H'].
+Qed.
+
+Theorem normal_form_fixed n pad :
+  wf_number n = true -> normalize_float (normal_form n pad) = Ok (normal_form n pad).
+Proof.
+  unfold wf_number. intros W.
+  repeat (apply andb_true_iff in W; destruct W as [W ?]).
+  rename H into Hexp, H0 into Hdig, H1 into Hfd, H2 into Hid. rename W into Hsg.
+  unfold normal_form, frac_str, frac_digits in *.
+  destruct (n_exp n) as [[es ed]|] eqn:Eexp.
+  - apply andb_true_iff in Hexp. destruct Hexp as [Hexp Hed].
+    apply andb_true_iff in Hexp. destruct Hexp as [Hes Hne].
+    destruct (n_frac n) as [f|] eqn:Ef.
+    + apply (norm_exp (n_sign n) (n_int n) es ed ("." ++ f ++ zeros pad) (f ++ zeros pad)); auto.
+      * now rewrite all_digits_app, Hfd, all_digits_zeros.
+      * right. split; [reflexivity|]. apply orb_true_iff in Hdig. apply orb_true_iff.
+        destruct Hdig as [H|H]; [left; exact H | right; now apply nonempty_app_l].
+      * left. reflexivity.
+    + simpl in Hdig. rewrite orb_false_r in Hdig.
+      apply (norm_exp (n_sign n) (n_int n) es ed "" ""); auto. left. reflexivity.
+  - destruct (n_frac n) as [f|] eqn:Ef.
+    + pose proof (norm_frac (n_sign n) (n_int n) Hsg Hid (canon_frac f) 0 (all_digits_canon f Hfd)) as H.
+      cbn [zeros] in H. rewrite sapp_nil_r, canon_frac_idem in H. exact H.
+    + simpl in Hdig. rewrite orb_false_r in Hdig. rewrite !sapp_nil_r. apply norm_int; auto.
+Qed.
+
+(* ---- parse_material: the density stored in a cell ---- *)
+Theorem parse_material_classes mat z n p1 m1 p2 m2 rest1 rest2 :
+  int_of_token mat = Some z -> z <> 0%Z ->
+  wf_number n = true -> marker_ok n m1 = true -> marker_ok n m2 = true ->
+  (n_exp n = None \/ p1 = p2) ->
+  parse_material (mat :: spell n p1 m1 :: rest1) = Ok (mat, Some (normal_form n p1)) /\
+  parse_material (mat :: spell n p2 m2 :: rest2) = parse_material (mat :: spell n p1 m1 :: rest1).
+Proof.
+  intros Hm Hz W M1 M2 G. unfold parse_material. rewrite Hm.
+  destruct z as [|p|p]; [now elim Hz| |];
+    rewrite (norm_spell n p1 m1 W M1), (norm_spell n p2 m2 W M2);
+    (split; [reflexivity|]); do 3 f_equal;
+    (destruct G as [G | ->]; [|reflexivity]); unfold normal_form; now rewrite G.
+Qed.
+
+(* void cells carry no density *)
+Lemma parse_material_void mat rest : int_of_token mat = Some 0%Z ->
+  parse_material (mat :: rest) = Ok (mat, None).
+Proof. intros H. unfold parse_material. now rewrite H. Qed.
